@@ -131,6 +131,7 @@ class Kernel:
         self.log = []
         self.ntx = 0
         self.tx_cap = TX_CAP
+        self.idle_hook = None
         self.abort = None
         self.ctx = ctx
         self.peers = dict(peers or {})
@@ -207,6 +208,12 @@ class Kernel:
         r = self._ready()
         if r or timeout == 0:
             return r
+        if self.idle_hook is not None and self.idle_hook():
+            # every runnable task has run until it blocked: the environment may now release a parked answer
+            self._arrive()
+            r = self._ready()
+            if r:
+                return r
         nxt = self.q[0][0] if self.q else None
         if timeout is None:
             if nxt is None:
